@@ -369,3 +369,5 @@ func MessageSentOf(evs sdk.Events) [][]byte {
 	}
 	return out
 }
+
+func debugStack() []byte { return debug.Stack() }
